@@ -23,14 +23,15 @@ def breaking_table(prefixes):
         lines.append(f"| `{b[:46]}` | {p} | {', '.join(det) or '—'} | {', '.join(und) or '—'} | {'own' if p in det else 'undecided' if p in und else 'other' if det else '**none**'} |")
     return '\n'.join(lines), tot, own, anyd
 
-def refactor_table():
+def refactor_table(prefixes=('R',)):
     lines = ['| refactoring | what it does | silent | false alarms | undecided |', '|---|---|---|---|---|']
     n = ok = 0
-    for b, m in rows(['R']):
+    NCHK = 20
+    for b, m in rows(list(prefixes)):
         what = ' '.join((m.get('what') or '').split())
         what = what.split(' - ', 1)[-1] if ' - ' in what[:40] else what
-        n += 1; ok += len(m.get('silent_for', [])) == 18
-        lines.append(f"| `{b}` | {what[:200].rstrip()}… | {len(m.get('silent_for', []))}/18 | {', '.join(m.get('false_alarms', [])) or '—'} | {', '.join(m.get('undecided_by', [])) or '—'} |")
+        n += 1; ok += len(m.get('silent_for', [])) == NCHK
+        lines.append(f"| `{b}` | {what[:200].rstrip()}… | {len(m.get('silent_for', []))}/{NCHK} | {', '.join(m.get('false_alarms', [])) or '—'} | {', '.join(m.get('undecided_by', [])) or '—'} |")
     return '\n'.join(lines), n, ok
 
 def put(name, text):
@@ -46,7 +47,15 @@ put('round2', t2 + f"\n\nRound 2: {any2}/{n2} detected by at least one check, {o
 if '<!-- GEN:round3 -->' in s:
     t4, n4, own4, any4 = breaking_table(['W3-'])
     put('round3', t4 + f"\n\nRound 3: {any4}/{n4} detected by at least one check, {own4}/{n4} by the check of the property they were written against.")
-t3, n3, ok3 = refactor_table()
-put('refactors', t3 + f"\n\n{ok3}/{n3} refactorings silent on all 18 checks.")
+t3, n3, ok3 = refactor_table(['R1-', 'R2-', 'R3-', 'R4-', 'R5-', 'R6-', 'R7-'])
+put('refactors', t3 + f"\n\n{ok3}/{n3} refactorings silent on all 20 checks (re-evaluated with the checks as they stand at the end of the 2026-09-29 session).")
+for name, pref in (('round4', ['W4-']), ('round5', ['W5-'])):
+    if f'<!-- GEN:{name} -->' in s:
+        t, n, own, anyd = breaking_table(pref)
+        put(name, t + f"\n\n{name.capitalize().replace('d', 'd ')}: {anyd}/{n} detected by at least one check, {own}/{n} by the check of the property they were written against.")
+if '<!-- GEN:refactors2 -->' in s:
+    t5, n5, ok5 = refactor_table(['R8-', 'R9-', 'R10-', 'R11-', 'R12-'])
+    nofa = sum(1 for b, m in rows(['R8-', 'R9-', 'R10-', 'R11-', 'R12-']) if not m.get('false_alarms'))
+    put('refactors2', t5 + f"\n\n{ok5}/{n5} silent on all 20 checks; {nofa}/{n5} without a false alarm (the others: exit 1 on behaviour-preserving code, listed above).")
 open(D, 'w').write(s)
 print('round1', n1, own1, any1, '| round2', n2, own2, any2, '| refactors', n3, ok3)
